@@ -33,18 +33,34 @@ def strategy(shard):
         sizes = draw(st.lists(st.sampled_from([0, 0, 1, 2, 3, 4, 6]), min_size=nb, max_size=nb))
         if sum(sizes) == 0:
             sizes[draw(st.integers(0, nb - 1))] = draw(st.integers(1, 4))
+        huge = draw(st.integers(0, 7)) == 0
+        if huge:
+            # a jurisdiction with tens of millions of cards (card numbers beyond 2^24 and 2^31)
+            sizes = [draw(st.sampled_from([10 ** 7, 2 ** 24, 3 * 10 ** 7, 2 ** 31])) if draw(st.booleans()) else s for s in sizes]
+            if max(sizes) < 10 ** 7:
+                sizes[0] = 2 ** 24 + 5
         total = sum(sizes)
         extra = draw(st.sampled_from([0, 0, 1, 2, 5]))
         bound = total + extra
         full = draw(st.booleans())
         lo = 1 if shard["vendor"] == "dominion" else 0
-        nums = list(range(lo, lo + bound))
-        perm = list(draw(st.permutations(nums)))
-        sample = perm if full else perm[: draw(st.integers(1, len(perm)))]
+        if huge:
+            edges, acc = set(), 0
+            for s in sizes + [extra]:
+                for d in (-2, -1, 0, 1):
+                    edges.update(v for v in (acc + d + lo, acc + s + d + lo) if lo <= v < lo + bound)
+                acc += s
+            edges.update(draw(st.lists(st.integers(lo, lo + bound - 1), max_size=5)))
+            perm = list(draw(st.permutations(sorted(edges))))
+            sample = perm[: draw(st.integers(1, len(perm)))]
+        else:
+            nums = list(range(lo, lo + bound))
+            perm = list(draw(st.permutations(nums)))
+            sample = perm if full else perm[: draw(st.integers(1, len(perm)))]
         n_cvrs = draw(st.integers(0, total))
         refuse = draw(st.sampled_from([None, None, None, "too-large", "too-few-cards"]))
         # CVR-driven lookup: one CVR per manifest card (a prefix of them) + phantom CVRs
-        ncv = draw(st.integers(1, total))
+        ncv = draw(st.integers(1, min(total, 40)))
         nph = draw(st.integers(0, 3))
         cs = list(draw(st.permutations(list(range(ncv + nph)))))
         cvr_sample = cs[: draw(st.integers(1, len(cs)))]
@@ -132,10 +148,16 @@ def evaluate(case, out):
         out.expect(str(man.iloc[-1][tabcol]) == "phantom", "prep:phantom-row-label", lambda: str(man.iloc[-1][tabcol]))
     # ---- expansion (reference model)
     rows = [(str(man.iloc[r][tabcol]), str(man.iloc[r][batcol])) for r in range(len(man))]
-    expansion = []
-    for r, s in enumerate(got_sizes):
-        for p in range(s):
-            expansion.append((r, p + 1 if dom else p))
+    # position i (0-based, over all cards in manifest order) -> (row, card within the batch): integer arithmetic
+    import bisect
+    starts = [0]
+    for s in got_sizes:
+        starts.append(starts[-1] + s)
+
+    def locate(i):
+        r = bisect.bisect_right(starts, i) - 1
+        return r, (i - starts[r] + 1 if dom else i - starts[r])
+
     sample = case["sample"]
     try:
         cards, order, mvr_ph = V.sample_from_manifest(man, list(sample))
@@ -144,7 +166,7 @@ def evaluate(case, out):
         return
     want_ids = []
     for s in sample:
-        r, p = expansion[s - 1] if dom else expansion[s]
+        r, p = locate(s - 1 if dom else s)
         want_ids.append(f"{rows[r][0]}-{rows[r][1]}-{p}")
     out.expect(len(set(want_ids)) == len(want_ids), "reference-not-injective(generator bug)", lambda: want_ids)
     got_ids = [c[-2] if dom else c[-1] for c in cards]
@@ -164,11 +186,10 @@ def evaluate(case, out):
     cvrs = []
     k = 0
     for r, s in enumerate(sizes):
-        for p in range(1, s + 1):
-            if k < case["ncv"]:
-                cid = f"{rows[r][0]}-{rows[r][1]}-{p}" if dom else f"{rows[r][1]}_{p}"
-                cvrs.append(CVR(id=cid, card_in_batch=p, votes={}))
-                k += 1
+        for p in range(1, min(s, case["ncv"] - k) + 1):
+            cid = f"{rows[r][0]}-{rows[r][1]}-{p}" if dom else f"{rows[r][1]}_{p}"
+            cvrs.append(CVR(id=cid, card_in_batch=p, votes={}))
+            k += 1
     if case["nph"] >= 2 and len(cvrs) % 2 == 1:
         # the phantom records as CVR.make_phantoms creates them for a style-based audit of two contests, the second of
         # which is short of more cards than the first
